@@ -53,6 +53,7 @@ Partial == {Include(S("p"), "none", NilE, "", <<>>),
             RenderT(S("nosuch"), "none", NilE, "", <<>>)}
 Blocks == {With(<<WArg("x", I(1)), WArg("w", Y)>>, <<NOut(P(X)), Assign("x", P(I(2))), NOut(P(X)), NOut(P(V("w")))>>),
            With(<<WArg("y", X)>>, <<Include(S("p"), "none", NilE, "", <<>>)>>),
+           With(<<WArg("x", S("in")), WArg("w", X), WArg("y", V("w"))>>, <<NOut(P(V("w"))), Sep, NOut(P(Y))>>),
            For("x", V("arr"), "arr", NoOpt, NoOpt, FALSE, <<NOut(P(X)), Assign("y", P(X))>>, NoElse),
            For("i", V("arr"), "arr", NoOpt, NoOpt, FALSE, <<RenderT(S("q"), "with", V("i"), "", <<>>)>>, NoElse),
            For("i", V("arr"), "arr", NoOpt, NoOpt, FALSE, <<Include(S("b"), "none", NilE, "", <<>>), NOut(P(V("i")))>>, NoElse),
